@@ -105,6 +105,7 @@ type analysis struct {
 	extCalls  map[string]int // external callee name -> flags (args reach SHARED)
 	userCall  map[string]int // "fn: callee" -> flags
 	freshUsed map[string]bool
+	edges     map[*entity]map[*entity]bool // call graph discovered while binding calls
 	escaped   []*entity
 	cur       *entity
 }
